@@ -1423,5 +1423,97 @@ theorem addTemplateDirSorted_listing_invariant {l₁ l₂ : List Tpl} (h : l₁.
   unfold addTemplateDirSorted
   rw [sortedWith_perm_invariant lexLe_isOrder (·.name) h hdistinct]
 
+/-! ## hunter round -/
+
+/-! ### extension load order.  Full statement — FALSE of the code:
+
+    theorem getExtensions_listing_invariant {l₁ l₂} (h : l₁.Perm l₂) : getExtensions l₁ = getExtensions l₂
+
+the built-in extensions are loaded in the order the file system lists pydoctor/extensions/. -/
+
+def extListing₁ : List (Name × Bool) := [([97, 46, 112, 121], true), ([122, 46, 112, 121], true)]      -- a.py, z.py
+def extListing₂ : List (Name × Bool) := [([122, 46, 112, 121], true), ([97, 46, 112, 121], true)]
+
+/-- two extension modules, the two listing orders, two load orders -/
+theorem getExtensions_listing_counterexample :
+    extListing₁.Perm extListing₂ ∧ getExtensions extListing₁ = [[97], [122]] ∧ getExtensions extListing₂ = [[122], [97]] :=
+  ⟨List.Perm.swap _ _ _, by decide, by decide⟩
+
+/-- what holds of the code: at most one extension module in the directory -/
+theorem getExtensions_listing_invariant_partial {l₁ l₂ : List (Name × Bool)} (h : l₁.Perm l₂)
+    (hone : (getExtensions l₁).length ≤ 1) : getExtensions l₁ = getExtensions l₂ := by
+  have hp : (getExtensions l₁).Perm (getExtensions l₂) := by
+    unfold getExtensions
+    exact h.filterMap _
+  match hg : getExtensions l₁, hone, hp with
+  | [], _, hp => exact (List.nil_perm.mp hp).symm
+  | [x], _, hp => exact List.singleton_perm.mp hp
+
+/-- with the proposed repair (sorted listing) the full statement holds: names of one directory are distinct -/
+theorem getExtensionsSorted_listing_invariant {l₁ l₂ : List (Name × Bool)} (h : l₁.Perm l₂)
+    (hdistinct : ∀ a ∈ l₁, ∀ b ∈ l₁, a.1 = b.1 → a = b) : getExtensionsSorted l₁ = getExtensionsSorted l₂ := by
+  unfold getExtensionsSorted
+  rw [sortedWith_perm_invariant lexLe_isOrder (·.1) h hdistinct]
+
+/-- the load order matters: two visitor extensions that both assign the kind of one assignment (attrs:
+INSTANCE_VARIABLE = 200, zopeinterface: ATTRIBUTE = 210) — the last loaded wins -/
+theorem kindAfterVisitors_order_counterexample :
+    kindAfterVisitors 300 [some 200, some 210] = 210 ∧ kindAfterVisitors 300 [some 210, some 200] = 200 := by
+  decide
+
+/-- … and only then: when at most one loaded extension claims the assignment the order is immaterial -/
+theorem kindAfterVisitors_single_claim (initial : Nat) (pre post : List (Option Nat)) (c : Option Nat)
+    (hpre : ∀ x ∈ pre, x = none) (hpost : ∀ x ∈ post, x = none) :
+    kindAfterVisitors initial (pre ++ c :: post) = (match c with | some k => k | none => initial) := by
+  have hnone : ∀ (l : List (Option Nat)) (k : Nat), (∀ x ∈ l, x = none) → kindAfterVisitors k l = k := by
+    intro l
+    induction l with
+    | nil => intro k _; rfl
+    | cons x xs ih =>
+      intro k h
+      have hx : x = none := h x List.mem_cons_self
+      subst hx
+      exact ih k (fun y hy => h y (List.mem_cons_of_mem _ hy))
+  unfold kindAfterVisitors at *
+  rw [List.foldl_append, hnone pre initial hpre]
+  simp only [List.foldl_cons]
+  cases c with
+  | none => exact hnone post initial hpost
+  | some k => exact hnone post k hpost
+
+/-! ### repr of a live set.  Full statement — FALSE of the code:
+
+    theorem setRepr_invariant {l₁ l₂} (h : l₁.Perm l₂) : setRepr l₁ = setRepr l₂ -/
+
+theorem setRepr_invariant_partial {l₁ l₂ : List Name} (h : l₁.Perm l₂) (hone : l₁.length ≤ 1) :
+    setRepr l₁ = setRepr l₂ := by
+  match l₁, hone, h with
+  | [], _, h => rw [List.nil_perm.mp h]
+  | [x], _, h => rw [(List.singleton_perm.mp h).symm]
+
+/-- `{'a', 'b'}` enumerated as a, b and as b, a -/
+theorem setRepr_counterexample :
+    setRepr [[39, 97, 39], [39, 98, 39]] ≠ setRepr [[39, 98, 39], [39, 97, 39]] := by decide
+
+theorem setReprSorted_invariant {l₁ l₂ : List Name} (h : l₁.Perm l₂) : setReprSorted l₁ = setReprSorted l₂ := by
+  unfold setReprSorted
+  rw [sort_perm_invariant h]
+
+/-! ### the docutils `date` directive.  Full statement — FALSE of the code:
+
+    theorem rstDate_function_of_inputs (hset : env ≠ .unset ∨ opt ≠ .notGiven) :
+        rstDateTime now₁ env opt = rstDateTime now₂ env opt
+
+SOURCE_DATE_EPOCH / `--buildtime` fix the footer (`buildtime_function_of_inputs`) but not the time a docstring shows
+through `.. |now| date::`.  There is no hypothesis on (env, opt) under which it holds: -/
+
+theorem rstDate_is_the_clock (now : Int) (env : EnvEpoch) (opt : OptTime) : rstDateTime now env opt = now := rfl
+
+/-- both ways of fixing the build time given, two wall-clock seconds: the footer agrees, the docstring does not -/
+theorem rstDate_counterexample :
+    rstDateTime 1750000000 (.value 0) (.time 1577836800) ≠ rstDateTime 1750000002 (.value 0) (.time 1577836800) ∧
+    buildTime 1750000000 (.value 0) (.time 1577836800) = buildTime 1750000002 (.value 0) (.time 1577836800) := by
+  decide
+
 
 end Determinism
